@@ -29,9 +29,12 @@ import (
 
 const (
 	verifDir = "/verif"
-	repoDir  = "/repo"
 	goBin    = "/opt/veriftools/go1.26.8/bin/go"
 )
+
+// repoDir is /repo; VERIF_REPO (development aid, never set by registered commands) points the build at
+// a private copy, e.g. to try a deliberate property-breaking edit without touching /repo.
+var repoDir = envOr("VERIF_REPO", "/repo")
 
 func goEnv() []string {
 	env := os.Environ()
